@@ -8,7 +8,8 @@
    alone, the inputs a primitive of that kind exposes (first VERTEX, first NORMAL, every
    TEXCOORD, and for triangles every TEXTANGENT / TEXBINORMAL). *)
 From Coq Require Import List ZArith NArith Lia.
-From PC Require Import Base.Outcome Model.IndexTable Model.PrimCtor Proofs.IndexTable Proofs.PrimCtor.
+From PC Require Import Base.Outcome Model.IndexTable Model.PrimCtor Model.PrimLoad
+  Proofs.IndexTable Proofs.PrimCtor Proofs.PrimLoad.
 Import ListNotations.
 
 (* every entry of every exposed index array is a valid position in its data array ... *)
@@ -118,6 +119,50 @@ Theorem C09_only_malformed_escapes : forall kd ins mat s e, stream_ok kd s -> bu
   construct kd ins mat s = Raise e -> e = DaeMalformed.
 Proof. exact construct_raise. Qed.
 Print Assumptions C09_only_malformed_escapes.
+
+(* ---- the load path.  [load_prim] = Geometry.load's order (every <source> through
+   FloatSource.load, then <vertices>, then the primitive's inputs resolved in that scope,
+   _getInputsFromList, constructor); [read_prim] = the same composition over the SPEC's purely
+   positional reading of each source (element r, component c = data[r*stride + c], stride = number
+   of <param>s, 3 for S,T,P of which two components are kept). *)
+Theorem C09_load_source_is_positional_read : forall x, stride_of x <> 0 -> load_source x = read_source x.
+Proof. exact load_source_is_read. Qed.
+Print Assumptions C09_load_source_is_positional_read.
+
+Theorem C09_load_is_ctor_of_read : forall kd es xins mat s,
+  (forall x, In (XSrc x) es -> stride_of x <> 0) ->
+  load_prim kd es xins mat s = read_prim kd es xins mat s /\
+  (forall loaded, read_entries read_source es = Ok loaded ->
+     read_prim kd es xins mat s =
+     match get_inputs (map (fun xi => RI (fst (fst xi)) (snd (fst xi)) (target_of es loaded (snd xi))) xins) with
+     | Ok ins => construct kd ins mat s
+     | Raise e => Raise e
+     end).
+Proof.
+  intros kd es xins mat s H. split; [now apply load_prim_is_read|].
+  intros loaded E. unfold read_prim, prim_of_document. rewrite E. reflexivity.
+Qed.
+Print Assumptions C09_load_is_ctor_of_read.
+
+(* modelled convention: the accessor's stride / offset / count attributes are read by nobody -
+   two sources that differ only there load identically (and so do the primitives over them) *)
+Theorem C09_accessor_attributes_ignored : forall stp data n st1 of1 ct1 st2 of2 ct2,
+  load_source (XS stp data n st1 of1 ct1) = load_source (XS stp data n st2 of2 ct2).
+Proof. reflexivity. Qed.
+Print Assumptions C09_accessor_attributes_ignored.
+
+Example C09_accessor_convention :
+  (* six values, two <param>s: three 2-component elements, whatever stride="3" offset="1" count="7" say *)
+  load_source (XS false [1;2;3;4;5;6]%Z 2 3 1 7) = Ok (Src [[1;2];[3;4];[5;6]]%Z 2) /\
+  (* S,T,P: stride 3, third value dropped; 7 values are not a multiple of 3 *)
+  load_source (XS true [1;2;3;4;5;6]%Z 3 3 0 2) = Ok (Src [[1;2];[4;5]]%Z 2) /\
+  load_source (XS true [1;2;3;4;5;6;7]%Z 3 3 0 2) = Raise DaeMalformed /\
+  (* a document: source 0 = positions, entry 1 = <vertices>, triangles reading VERTEX through it *)
+  (exists p, load_prim KTri [XSrc (XS false [0;0;0; 1;0;0; 0;1;0]%Z 3 3 0 3); XVerts [(VPosition, 0)]]
+               [(0, VERTEX, XRef 1)] None (SFlat [0;1;2]%N) = Ok p /\ p_nrows p = 1) /\
+  load_prim KTri [XSrc (XS false [0;0;0; 1;0;0; 0;1;0]%Z 3 3 0 3); XVerts [(VPosition, 0)]]
+               [(0, VERTEX, XRef 1)] None (SFlat [0;1;3]%N) = Raise DaeMalformed.
+Proof. repeat split; try (eexists; split); vm_compute; reflexivity. Qed.
 
 (* ---- Non-vacuity.  A layout with shared and distinct offsets, a gap (offset 2 unused),
    two texcoord sets and a tangent set. *)
